@@ -42,6 +42,7 @@ type WorldSpec struct {
 	// Fate per IRI for Dereference, known to the reference models:
 	// "unreachable" | "nonjson" | "unknowntype" | "notobject"
 	Fate map[string]string `json:"fate,omitempty"`
+	Tx   *TxSpec           `json:"tx,omitempty"` // txsim: one shared HttpSigTransport
 }
 
 type DocSpec struct {
@@ -83,6 +84,7 @@ type ReqSpec struct {
 	RawBody     *string         `json:"raw_body,omitempty"` // non-JSON bodies
 	Auth        string          `json:"auth,omitempty"`     // ok (default) | deny | err
 	After       []string        `json:"after,omitempty"`
+	Recipients  []string        `json:"recipients,omitempty"` // txsim
 }
 
 func (r *RunSpec) Clone() *RunSpec {
